@@ -39,6 +39,11 @@ fn strings_full() -> Vec<String> {
     for l in COLLIDING_LENGTHS {
         v.push("s".repeat(l));
     }
+    // content a decoder might be tempted to normalise or mistake for structure: NUL at either end, surrounding
+    // white space, a tab (09 = object-end marker), and the byte sequence of an object terminator
+    for t in ["\u{0}", "ab\u{0}", "\u{0}ab", " ab ", "\t", "a\n", "\u{0}\u{0}\t", "\u{feff}a"] {
+        v.push(t.to_string());
+    }
     v
 }
 
@@ -50,6 +55,11 @@ fn names_full() -> Vec<String> {
     for l in COLLIDING_LENGTHS {
         v.push("k".repeat(l));
     }
+    for t in ["\u{0}", "a\u{0}", " a", "\t", "\u{0}\u{0}\t"] {
+        v.push(t.to_string());
+    }
+    // a name whose ninth byte is a tab and whose length has 09 as its high byte
+    v.push(format!("nnnnnnnn\t{}", "n".repeat(0x0900 + 20)));
     v
 }
 
